@@ -17,6 +17,8 @@ _WS_RX = [
     cs.callers_hold("ws_nextframe_only_under_lock", "nbhttp/websocket/conn.go", "recv.nextFrame", "recv.mux"),
 ]
 _CS_WS = cs.WSWRITE + cs.WSCLOSE + _WS_RX
+# core Conn write queue (OwnC): Write/Writev/Sendfile/flush/Close are each one hold of the conn mutex (the predicates of the conn family)
+_CS_CONN = cs.WRITE + cs.CLOSE
 
 # HTTP side (OwnBody): a Parse call and CloseAndClean are each ONE hold of the parser mutex (the twin's `parse` and
 # `closeAndClean` are atomic steps; the handler works on objects handed over to it: docs/resp.md §10 C11/3)
@@ -40,8 +42,16 @@ PROPS = {
                     "tied to the code by differential execution of generated handler programs through the real Parser -> handler -> "
                     "flushResponse path, plus a net/http.ReadResponse decoding oracle on the implementation alone",
             "note": "model fidelity is sampled (differential run on every check); Sane excludes handler errors (see docs/resp.md); "
-                    "ReadFrom is proved for identity framing (ServeContent shape and after earlier writes); every theorem except c09_write_returns_len "
-                    "assumes a conn that accepts the writes; HEAD is finding resp-head-body",
+                    "ReadFrom is proved for identity framing with an explicit Content-Length (ServeContent shape and after earlier writes); "
+                    "ReadFrom without an explicit Content-Length is outside Sane: no theorem, no decode oracle; "
+                    "every theorem except c09_write_returns_len assumes a conn that accepts the writes (failAt = 0); HEAD is finding resp-head-body "
+                    "(the request method is not an input of the model); "
+                    "trailers: c09_stage2_trailers is a render/parse round trip of the last-chunk block; c09_stage2_trailer_keys adds that its field "
+                    "names are the declared Trailer keys and each value the first value the header map holds for the key when the handler returns "
+                    "(for body-phase header operations on declared trailers only); the same is tied by the trl comparison and c09-decode; "
+                    "automatic header fields are proved only as autoPairs of an existentially quantified encoding state (status line, framing flag "
+                    "and handler fields pinned), except Content-Length without Flush (c09_identity_auto_length) and its absence after a Flush "
+                    "(c09_flush_close_delimited)",
             "technique": "Lean 4 proof (invariant over op sequences) + differential correspondence + independent decoder oracle"},
         "lean": ["NbioVerif.Properties.C09"], "drivers": ["respdrv"], "harness": ["hresp"],
         "runs": [RESP_RUN],
@@ -63,7 +73,13 @@ PROPS = {
                     "allocator interface (mempool.DefaultMemPool, Config.BodyAllocator); the tracker's own verdicts (poison, live set, "
                     "recording conn) are the direct oracles",
             "note": "ws cases drive real websocket.Conn objects over a gated conn (the sender goroutine of the async send queue is "
-                    "stepped deterministically); harness/internal/track is shared with hws/hhttp/hconn",
+                    "stepped deterministically); harness/internal/track is used by hresp and by hws -track; wsdrv runs no Own* model: the hws run "
+                    "contributes the tracker's oracles only; "
+                    "reads and reslices of pooled buffers leave no allocator event; their placement in the twins is untied and covered only by "
+                    "the read-side oracles; only the websocket twin is an interleaving model; the HTTP and conn twins are sequential (their atomic "
+                    "steps are tied by critical-section predicates, the asynchronous handler by an informal hand-over argument); paths outside the "
+                    "twins (upgrade, client processor, RetainHTTPBody, Hijack, handler panic, deflate) are covered at most by the tracker's oracles; "
+                    "uniqueness is proved per twin; cross-layer hand-over is checked by the tracker only; leaks are not checked (not part of C11)",
             "technique": "Lean 4 proof (ownership invariant by induction over op sequences) + differential trace correspondence + tracking allocator"},
         "lean": ["NbioVerif.Properties.C11"], "drivers": ["respdrv", "wsdrv"], "harness": ["hresp", "hws"],
         "runs": [dict(RESP_RUN, fields=["n", "err", "tr", "own", "rd", "cache", "q", "msg", "dl", "fl"]),
@@ -73,7 +89,7 @@ PROPS = {
                  {"harness": "hws", "driver": "wsdrv", "exec_args": ["-track"],
                   "fields": ["err", "werr", "rerr", "berr", "recv", "back"], "corpus": "ws",
                   "quick": {"n": 160, "shards": 8, "timeout": 400}, "thorough": {"n": 800, "shards": 16, "timeout": 3000}}],
-        "oracles": ["c11-"], "cs": _CS_WS + _CS_HTTP,
+        "oracles": ["c11-"], "cs": _CS_WS + _CS_HTTP + _CS_CONN,
         "rule": "same stream as C09 (resp cases) plus body cases (segmented requests, handler reads, CloseAndClean) and conn cases (write "
                 "queue under scripted kernel answers) and ws cases (received segments with fragments/control frames/an invalid frame, "
                 "WriteMessage direct or through the async send queue with gated conn writes, write errors, CloseAndClean at any point); distinct by hash of (config, op-kind sequence with conn writes / parser state / "
